@@ -42,7 +42,7 @@ from tools import wowm_print as P
 
 PROP = "C07"
 TIERS = {
-    "quick": dict(programs=40, batch=100, nprof=2, maxlen=2, static=True, oversample=8),
+    "quick": dict(programs=40, cap=72, batch=128, nprof=2, maxlen=2, static=True, oversample=8),
     "thorough": dict(programs=500, batch=104, nprof=3, maxlen=3, static=True, oversample=2),
 }
 
@@ -341,7 +341,7 @@ def wire_stage(ws, cur, ctx, tag, params):
     outdir = os.path.join(C.WORK, "c07-wire-" + tag)
     shutil.rmtree(outdir, ignore_errors=True)
     stats, paths = wire.run_wire(ldir, outdir, nshards=2, workers=4, nprof=params["nprof"], maxlen=params["maxlen"],
-                                 only="", deep=False, timeout=1500, tag="c07-" + tag)
+                                 only="", deep=False, timeout=1500, tag="c07-" + tag, det_after=params.get("det_after", 12))
     ctx.wire_states += sum(s["distinct"] for s in stats)
     ctx.wire_transitions += sum(s["generated"] for s in stats)
     ctx.timing["wire_s"] += time.time() - t0
@@ -497,9 +497,10 @@ REQUIRED_FEATURES = {
 }
 
 
-def select(pool, n):
-    """n programs of the pool (already in seeded order): first those that add a feature no earlier pick
-    has (so a small batch still spans the feature set), then the rest in order."""
+def select(pool, n, cap=None):
+    """Programs of the pool (already in seeded order): first ALL those that add a feature no earlier
+    pick has (so a small batch still spans the feature set; at most `cap`), then the rest in order up
+    to n."""
     picked, rest, have = [], [], set()
     for p in pool:
         f = P.features(p)
@@ -508,7 +509,9 @@ def select(pool, n):
             have |= f
         else:
             rest.append(p)
-    return (picked + rest)[:n] if len(picked) <= n else picked[:n]
+    cap = cap or n
+    picked = picked[:max(cap, n)]
+    return picked if len(picked) >= n else (picked + rest)[:n]
 
 
 def run(tier):
@@ -517,7 +520,7 @@ def run(tier):
     ctx = Ctx(tier)
     K.build_generator()
     pool, gstats = K.grammar(params["programs"] * params["oversample"], tag="c07")
-    progs = select(pool, params["programs"])
+    progs = select(pool, params["programs"], cap=params.get("cap"))
     if len(progs) < params["programs"] // 2:
         raise C.ToolError("grammar simulation produced only %d distinct programs" % len(progs))
     log("grammar: %d distinct programs from %d walks, %d states generated, %.1fs" %
